@@ -222,6 +222,10 @@ func runC01(c *eng.Ctx) {
 	// ---- R12 blocking sends
 	r12 := c.Rule("C01.R12", "H:idiom", "sends on the kube-event and schedule channels are blocking (never a select alternative that can drop the value)", 2)
 	runC01R12(c, r12)
+
+	// ---- R13 shared informer lifetime (shared with C02.R8, C08.R6)
+	r13 := c.Rule("C01.R13", "D:provenance+C", "a shared informer runs under its factory's detached context and is cancelled only when its last handler registration is removed", 3)
+	runSharedInformerLifetime(c, r13)
 }
 
 // unmatchedSwitchEdge: the false edge of the last case of a switch over a parameter whose call sites pass only
